@@ -18,7 +18,8 @@ RULE = ('generated specs with defaults on every defaultable type (boundary liter
         'result gives the same document. Near misses: per spec a few defaults / examples that break one '
         'declared constraint are compiled too; those the compiler refuses are only counted, any it accepts '
         'is held to the same oracle (class accepts the default, example decodes strictly). distinct = distinct (literal kind, constraint kind, type shape) cells')
-ASSUMPTIONS = ['Bytes example literals are canonical base64 and Timestamp literals canonical for their format']
+ASSUMPTIONS = ['the main pass writes Bytes examples as canonical base64 and Timestamp examples in the canonical text of '
+               'their format; other literal forms are exercised by two probes per spec (recorded findings)']
 REQUIRED_COUNTERS = ['defaults_checked', 'examples_checked']
 
 
@@ -158,6 +159,49 @@ def run_shard(tier, seed, idx, n, res, tmp):
 
 
 NEAR_MISS_RULES = ('default', 'example')
+PROBE_TYPES = {'probe_bytes_example_text_literal': 'Bytes', 'probe_timestamp_example_unpadded': 'Timestamp'}
+
+
+def literal_probes(m, rnd):
+    """Example literals the compiler is known to take although they are not the wire
+    form of the value: arbitrary text for Bytes (route attributes of type Bytes take
+    text and UTF-8 encode it), Timestamp text that parses under the format without
+    being what the format prints.  At most one probe of each kind per spec."""
+    out = []
+    done = set()
+    for ni, ns in enumerate(m.namespaces):
+        for di, d in enumerate(ns.defs):
+            if d.kind != 'struct' or d.subtypes:
+                continue
+            for ei, ex in enumerate(d.examples):
+                for f in m.struct_all_fields(d):
+                    ev = ex.values.get(f.name)
+                    if not ev or ev[0] != 'lit' or f.type is None:
+                        continue
+                    rt, _ = m.resolve_alias(f.type)
+                    if rt.kind != 'prim':
+                        continue
+                    new = None
+                    if rt.name == 'Bytes' and 'b' not in done:
+                        new, name = 'plain text, not base64!', 'probe_bytes_example_text_literal'
+                        key = 'b'
+                    elif rt.name == 'Timestamp' and 't' not in done and '-%m-%d' in rt.args['format']:
+                        fmt = rt.args['format']
+                        try:
+                            dt = datetime.datetime.strptime(ev[1], fmt)
+                            cand = dt.strftime(fmt.replace('%m', '%-m').replace('%d', '%-d'))
+                            if cand != ev[1] and datetime.datetime.strptime(cand, fmt) == dt:
+                                new, name, key = cand, 'probe_timestamp_example_unpadded', 't'
+                        except ValueError:
+                            pass
+                    if new is None:
+                        continue
+                    done.add(key)
+
+                    def apply(m2, ni=ni, di=di, ei=ei, fname=f.name, new=new):
+                        m2.namespaces[ni].defs[di].examples[ei].values[fname] = ('lit', new)
+                    out.append((name, ('struct_example', apply)))
+    return out
 
 
 def near_misses(res, m, case, ci, tmp, b):
@@ -184,7 +228,8 @@ def near_misses(res, m, case, ci, tmp, b):
         if sites:
             cands.append((rule.rule_name, rnd.choice(sites)))
     rnd.shuffle(cands)
-    for rname, (ctx, apply) in cands[:b.get('near', 4)]:
+    cands = cands[:b.get('near', 4)] + literal_probes(m, rnd)
+    for rname, (ctx, apply) in cands:
         m2 = copy.deepcopy(m)
         try:
             edit = apply(m2)
@@ -242,13 +287,26 @@ def near_misses(res, m, case, ci, tmp, b):
                         if _contains_catch_all(ex.value):
                             continue
                         res.count('near_miss_examples_checked')
+                        probe = PROBE_TYPES.get(rname)
                         try:
-                            ss.json_compat_obj_decode(validator, _plain(ex.value), strict=True)
+                            val = ss.json_compat_obj_decode(validator, _plain(ex.value), strict=True)
+                            if probe:
+                                enc = ss.json_compat_obj_encode(validator, val)
+                                diff = wire.json_eq(_plain(ex.value), enc)
+                                if diff:
+                                    res.violation({'kind': 'example_literal_emitted_verbatim', 'type': probe},
+                                                  {'type': dt.name, 'label': label, 'diff': diff,
+                                                   'example': ex.value}, replay)
                         except bv.ValidationError as e:
-                            res.violation({'kind': 'accepted_example_refused', 'rule': rname,
-                                           'reason': _reason(str(e))},
-                                          {'type': dt.name, 'label': label, 'error': str(e)[:300],
-                                           'example': ex.value}, replay)
+                            if probe:
+                                res.violation({'kind': 'example_literal_emitted_verbatim', 'type': probe},
+                                              {'type': dt.name, 'label': label, 'error': str(e)[:300],
+                                               'example': ex.value}, replay)
+                            else:
+                                res.violation({'kind': 'accepted_example_refused', 'rule': rname,
+                                               'reason': _reason(str(e))},
+                                              {'type': dt.name, 'label': label, 'error': str(e)[:300],
+                                               'example': ex.value}, replay)
                         except Exception as e:
                             res.violation({'kind': 'accepted_example_decode_raised', 'rule': rname,
                                            'exc': type(e).__name__}, {'error': repr(e)[:200]}, replay)
